@@ -359,6 +359,65 @@ fn gen_compile_case(ch: &mut Chooser, n: usize, depth: u32) -> (String, Vec<Exp>
 #[derive(Clone)]
 enum Work { Compile { body: String, expected: Vec<Exp>, nontrivial: bool, n: usize, depth: u32, choices: Vec<u32> }, Decompile { times: Vec<i32>, jumps: Vec<(usize, usize, u8)> }, Run { masks: Vec<u8>, times: Vec<i32>, same: bool, tail: i32 }, Pair { t: (i32, i32), d: (u8, u8), retarget: u8 } }
 
+// ---------------------------------------------------------------------------------------------
+// real formats: the time field of an instruction is 16 bits wide in some formats (TH06 ANM, MSG, EoSD timelines) and
+// 32 bits in others.  Label sequences whose M3 time crosses those boundaries are compiled for every host; a successful
+// compile must store exactly M3's time on every marker (read back with the M2 walkers), anything else must be an error.
+
+fn real_time_sequences() -> Vec<(String, Vec<i64>)> {
+    // (body of markers and labels, expected time of each marker)
+    let mut v: Vec<(String, Vec<i64>)> = vec![];
+    let abs: [i64; 14] = [0, 1, 32767, 32768, 40000, 65535, 65536, 70000, 2147483647, -1, -32768, -32769, -65536, -2147483648];
+    for &a in &abs {
+        v.push((format!("{a}: m0();"), vec![a]));
+        v.push((format!("m0(); {a}: m0(); +1: m0();"), vec![0, a, (a + 1) as i32 as i64]));
+    }
+    for (a, b) in [(20000i64, 20000i64), (32767, 1), (32767, 0), (30000, 2767), (30000, 2768), (65535, 1), (-32768, -1), (-30000, -2768), (-30000, -2769), (2147483647, 1)] {
+        v.push((format!("+{a}: m0(); +{b}: m0();", a = if a < 0 { format!("({a})") } else { a.to_string() }, b = if b < 0 { format!("({b})") } else { b.to_string() }), vec![a as i32 as i64, (a + b) as i32 as i64]));
+        v.push((format!("{a}: m0(); +{b}: m0(); 5: m0();", b = if b < 0 { format!("({b})") } else { b.to_string() }), vec![a, (a + b) as i32 as i64, 5]));
+    }
+    v
+}
+
+fn check_real_times(rep: &mut Report) {
+    use crate::drive::{self, CompileOpts, Kind};
+    let seqs = real_time_sequences();
+    let hosts: Vec<crate::c01::Host> = crate::c01::hosts().into_iter().chain(crate::c01::all_game_hosts()).collect();
+    let items: Vec<(usize, usize)> = (0..hosts.len()).flat_map(|h| (0..seqs.len()).map(move |s| (h, s))).collect();
+    let results = par_map(&items, Some(rep.deadline()), |_, &(h, s)| {
+        let host = &hosts[h];
+        let (body, want) = &seqs[s];
+        let src = host.wrap(&format!("{{ {body} }}"));
+        let um = host.user_mapfile();
+        let out = drive::compile(host.tool, src.as_bytes(), &CompileOpts { mapfiles: vec![&um], ..Default::default() });
+        let det = |what: String| json!({"family": "real-times", "host": host.name, "body": body, "source": src, "expected_marker_times": want, "what": what});
+        if let Some(p) = &out.panic { return ("panic".to_string(), Some(Failure { signature: format!("C13:real:{}", p.signature()), detail: det(p.text.clone()) })); }
+        let Some(bytes) = out.bytes else {
+            return if drive::has_error(&out.diag) { ("rejected-with-error".into(), None) } else { ("rejected-silently".into(), Some(Failure { signature: format!("C13:real:rejected-without-error:{}", host.name), detail: det(out.diag.clone()) })) };
+        };
+        let m0 = host.op_base;   // opcode of marker m0
+        let instrs: Result<Vec<crate::m2::Instr>, String> = match host.tool.kind {
+            Kind::Anm => crate::m2::walk_anm(&bytes, host.tool.game).map(|e| e.get(0).and_then(|e| e.scripts.get(0).map(|s| s.instrs.clone())).unwrap_or_default()),
+            Kind::Ecl => crate::m2::walk_ecl(&bytes, host.tool.game).map(|w| w.subs.get(0).cloned().unwrap_or_default()),
+            Kind::Std => crate::m2::walk_std(&bytes, host.tool.game).map(|w| w.script.clone()),
+            _ => crate::m2::walk_msg(&bytes, host.tool.game, false).map(|w| w.scripts.get(0).map(|s| s.1.clone()).unwrap_or_default()),
+        };
+        let instrs = match instrs { Ok(i) => i, Err(e) => return ("unreadable".into(), Some(Failure { signature: format!("C13:real:output-unreadable-by-M2:{}", host.name), detail: det(e) })) };
+        let got: Vec<i64> = instrs.iter().filter(|i| i.opcode == m0).map(|i| i.time as i64).collect();
+        if &got == want { ("stored-exactly".into(), None) }
+        else { ("STORED-OTHER-TIME".into(), Some(Failure { signature: format!("C13:real:stored-time-differs:{}", host.name), detail: det(format!("stored marker times {:?}", got)) })) }
+    });
+    let mut n = 0u64;
+    for (k, r) in results.into_iter().enumerate() {
+        let Some((class, f)) = r else { rep.cap_hit = Some("wall cap in the real-format time family".into()); continue; };
+        n += 1; rep.evaluations += 1; rep.states += 1; rep.transitions += 1; rep.traces_validated += 1; rep.nontrivial += 1;
+        rep.outcome(&format!("real:{class}"));
+        if let Some(f) = f { rep.failures.push(f); }
+        if k % 701 == 0 { rep.sample(json!({"family": "real-times", "host": hosts[items[k].0].name, "body": seqs[items[k].1].0})); }
+    }
+    rep.extra.insert("real_time_cases".into(), json!(n));
+}
+
 pub fn run(tier: &str) -> Report {
     let mut rep = Report::new("C13", tier, "model_checking");
     let thorough = tier == "thorough";
@@ -440,6 +499,7 @@ pub fn run(tier: &str) -> Report {
         }
         rep.failures.extend(failures);
     }
+    check_real_times(&mut rep);
     rep.exhaustive = true;
     rep.bound_completed = format!("compile: <= {max_items} items, nesting <= {depth}, deviations <= {bound} ({n_compile} programs); decompile: every stored-time sequence of length <= {max_len} over {:?} with 0 or 1 jump (any position, any target, 3 time-arg modes); {n_runs} foldable difficulty runs ({} mask tilings x every assignment of times from {:?} x same/different values x tail time, plus two-part cmp+jmp pairs x times x masks x a jump landing between them)", STORED_TIMES, RUN_TILINGS.len(), RUN_TIMES);
     rep.rule = "compile: E-DFS over sequences of {abs label, rel label (incl. const-expr and i32::MAX deltas), marker, loop/if/times/free block}; decompile: full product of stored times; non-trivial = >= 2 label kinds / block present, or >= 2 distinct stored times or a jump".into();
